@@ -187,6 +187,61 @@ Theorem C19_radians_first_turn_partial : forall angle tol rest thr outs out,
       Qabs ((sumq out + 2 * inject_Z k) * p - angle) <= tol + FE_ALLOW.
 Proof. exact radians_first_turn. Qed.
 
+(* GENERAL CASE.  allow(angle) = 2^-49 + 2^-50 + |floor(angle / (2*np.pi))| * 2^-51  (Num/Angle.v).
+   For EVERY rational angle on which the front end is defined (every finite double of
+   either sign and any magnitude whose intermediates stay in the normal range) and
+   2^-240 <= tol <= 1: rest in [0,2), thr >= 2^-248, and the front-end error, threshold
+   excess included, is at most allow(angle) at every p in [PI_LO, PI_HI].  Ingredients:
+   CPython's float % (exact fmod; for negative angles one rounding of r + 2*np.pi:
+   py_mod_general), two half-ulp roundings (C19_rne53_half_ulp) on a reduced angle < 2*np.pi,
+   pi - np.pi on the reduced angle, and 2*(pi - np.pi) <= 2^-51 per whole turn removed. *)
+Theorem C19_front_general : forall angle tol rest thr,
+  pow2 (-240) <= tol -> tol <= 1 ->
+  front angle tol = Some (rest, thr) ->
+  0 <= rest /\ rest < 2 /\ pow2 (8 - D_FIELD) <= thr /\
+  exists k, (k = turns angle \/ k = turns angle + 1)%Z /\
+    forall p, PI_LO <= p -> p <= PI_HI -> fe_at angle tol rest thr k p <= allow angle.
+Proof. exact front_general. Qed.
+
+(* C19_radians_full with the explicit allowance allow(angle), for every angle, without
+   any per-input hypothesis: every output the model allows is within tol + allow(angle)
+   radians of angle - 2 k p for every p in [PI_LO, PI_HI].  No bound on |angle| is needed:
+   the statement degrades linearly with the number of turns, which is exactly the
+   recorded finding (allow(1e13) > 1e-4: C19_allow_examples).
+   _partial only in: (i) the allowance itself (a float front end cannot meet tol exactly);
+   (ii) `front` is the rational model of the four float statements; that it equals the
+   PrimFloat operations (Num/AngleFloat.front_f) and the values inside the implementation is
+   decided per case on every run (check_fcase bits 1, 2), not proved for all doubles: that
+   needs FloatAxioms.{div,add}_spec (or Flocq's Prim2B bridge, which adds the classical-reals
+   axioms) plus a proof that Angle.rne53 is SpecFloat's round-to-nearest-even - not done. *)
+Theorem C19_radians_general_partial : forall angle tol rest thr outs out,
+  pow2 (-240) <= tol -> tol <= 1 ->
+  front angle tol = Some (rest, thr) -> spec_all angle tol = Some outs -> In (Some out) outs ->
+  exists k, (k = turns angle \/ k = turns angle + 1)%Z /\
+    forall p, PI_LO <= p -> p <= PI_HI ->
+      Qabs ((sumq out + 2 * inject_Z k) * p - angle) <= tol + allow angle.
+Proof. exact radians_general. Qed.
+
+(* what allow amounts to: below 3e-15 in the first turn, below 4e-15 one turn either way, below 1e-14 at 100 rad,
+   below 1e-9 at 1e7 rad, and above the default tolerance at 1e13 rad (the finding);
+   the hypotheses of the two theorems hold for the negative double -100.5 *)
+Example C19_allow_examples :
+  allow (-1 # 1) <= 4 # 1000000000000000 /\ allow (6 # 1) <= 3 # 1000000000000000 /\
+  allow (100 # 1) <= 1 # 100000000000000 /\ allow (10000000 # 1) <= 1 # 1000000000 /\
+  1 # 10000 < allow (10000000000000 # 1) /\
+  exists rest thr outs, front (-201 # 2) (7378697629483821 # 73786976294838206464) = Some (rest, thr) /\
+    spec_all (-201 # 2) (7378697629483821 # 73786976294838206464) = Some outs /\ outs <> nil /\
+    turns (-201 # 2) = (-16)%Z.
+Proof.
+  do 5 (split; [vm_compute; first [discriminate | reflexivity]|]).
+  destruct (front (-201 # 2) (7378697629483821 # 73786976294838206464)) as [[rest thr]|] eqn:F;
+    [| vm_compute in F; discriminate F].
+  destruct (spec_all (-201 # 2) (7378697629483821 # 73786976294838206464)) as [outs|] eqn:S;
+    [| vm_compute in S; discriminate S].
+  exists rest, thr, outs. split; [reflexivity|]. split; [reflexivity|].
+  split; [vm_compute in S; injection S as S; subst outs; discriminate | vm_compute; reflexivity].
+Qed.
+
 (* its hypotheses hold for the doubles angle = 0.3, tol = 1e-4 (k = 0), and for
    angle = -1.0 with k = -1 *)
 Example C19_radians_partial_nonvacuous :
@@ -294,6 +349,8 @@ Print Assumptions C19_radians_partial.
 Print Assumptions C19_rne53_half_ulp.
 Print Assumptions C19_front_first_turn.
 Print Assumptions C19_radians_first_turn_partial.
+Print Assumptions C19_front_general.
+Print Assumptions C19_radians_general_partial.
 Print Assumptions C19_old_threshold_refuted.
 Print Assumptions C19_old_filter_refuted.
 Print Assumptions C19_rest_two_refuted.
